@@ -130,8 +130,13 @@ def run_row(ctx, v, rnd, ev=None, unit=UNIT, tag="row"):
                 al = Alarms()
                 al.add_alarm(comp.subcomponents[0])
                 al.set_start(comp.start)
-                al.acknowledge_until(inst(r["ackC"], unit) if r["ackC"] != -1 else None)
-                al.snooze_until(inst(r["snooze"], unit) if r["snooze"] != -1 else None)
+                # the documented argument is "the time in UTC": an aware value or a naive one read as UTC, whatever the
+                # time zone of the machine (checks run with TZ set to a zone far from UTC, see ./check)
+                def arg(t):
+                    v = inst(t, unit)
+                    return v.replace(tzinfo=None) if rnd.random() < 0.4 else v
+                al.acknowledge_until(arg(r["ackC"]) if r["ackC"] != -1 else None)
+                al.snooze_until(arg(r["snooze"]) if r["snooze"] != -1 else None)
             else:
                 al = Alarms(comp)
             if r["local"]:
